@@ -425,6 +425,10 @@ def rule_extension(repo: Repo, rep: Report) -> int:
 def rule_hamming_columns(repo: Repo, rep: Report) -> int:
     fi = repo.func(HAM, "create_hamming_parity_submatrix")
     n = 0
+    hst, hd = hamming_rows_evaluated(fi)
+    if hst in (OK, VIOLATION):
+        rep.add("HAMMING-COLS", fi, "parity submatrix evaluated for mu = 2..5 (plain and extended)", hst, hd, node=fi.node)
+        return 1
     blocks = [s for s in fi.body if isinstance(s, ast.If) and "mu <=" in unparse(s.test)]
     loops = []
     for b in blocks:
@@ -447,6 +451,33 @@ def rule_hamming_columns(repo: Repo, rep: Report) -> int:
     ok = "row.index_fill_(0, torch.tensor(indices, device=device), 1.0)" in body and "parity_submatrix[row_idx, :] = row" in body and "row_idx += 1" in body
     rep.expect(ok, "HAMMING-COLS", fi, "row = indicator of the index tuple; stored at consecutive rows", "each tuple becomes one row", "row construction changed")
     return n + 1
+
+
+def hamming_rows_evaluated(fi: FuncInfo):
+    """Run create_hamming_parity_submatrix (own arithmetic) for mu = 2..5: its k = 2^mu - mu - 1 rows must be exactly the
+    mu-tuples of weight >= 2, each once (then [I | P] has every non-zero mu-tuple as a column of H: d = 3); the extended
+    variant appends the overall parity (1 + row sum) mod 2."""
+    from ..frag import FragRaise, FragReturn, run_fragment
+
+    for mu in (2, 3, 4, 5):
+        for ext in (False, True):
+            try:
+                run_fragment(fi.body, {"mu": mu, "extended": ext, "dtype": "torch.float32", "device": None}, {}, max_steps=400000, materialise=True)
+                return UNDECIDED, "no value returned"
+            except FragReturn as r:
+                P = r.value
+            except (Unfoldable, FragRaise, TypeError, IndexError) as exc:
+                return UNDECIDED, f"not evaluable ({exc})"
+            k = 2**mu - mu - 1
+            if not (isinstance(P, list) and len(P) == k and all(isinstance(r_, list) and len(r_) == mu + (1 if ext else 0) for r_ in P)):
+                return VIOLATION, f"for mu = {mu}, extended = {ext} the parity submatrix is not {k} x {mu + (1 if ext else 0)}"
+            rows = [tuple(int(x) for x in r_[:mu]) for r_ in P]
+            want = {t_ for t_ in __import__("itertools").product((0, 1), repeat=mu) if sum(t_) >= 2}
+            if set(rows) != want or len(set(rows)) != len(rows):
+                return VIOLATION, f"for mu = {mu} the parity rows {rows[:4]}... are not the mu-tuples of weight >= 2, each exactly once: H = [P^T | I] then has a repeated or missing column and the code is not the Hamming code (d < 3 or wrong k)"
+            if ext and any(int(r_[mu]) % 2 != (1 + sum(rows[i])) % 2 for i, r_ in enumerate(P)):
+                return VIOLATION, f"for mu = {mu} the appended column is not the overall parity (1 + row sum) mod 2 of each generator row: the extended code does not have distance 4"
+    return OK, "rows = all mu-tuples of weight >= 2, each once; extension column = overall parity (mu = 2..5)"
 
 
 def rule_cyclic_layout(repo: Repo, rep: Report) -> int:
